@@ -230,12 +230,14 @@ def _absent_guard(view: FuncInfo, sh: Shapes, keyp: list[Production], jmap: dict
     if not keyp:
         return None, None, "no production of missing dependencies found"
     worst = (True, True, "")
+    reachable = False
     for p in keyp:
         alts = _deep_conds(view, sh, p)
         for cs in alts:
             f = conds_formula(cs, subst)
             if not satisfiable(f):
                 continue
+            reachable = True
             if implies(f, f_not(want)):
                 continue
             ats = atoms_of(f)
@@ -260,6 +262,8 @@ def _absent_guard(view: FuncInfo, sh: Shapes, keyp: list[Production], jmap: dict
                 if odd:
                     return None, None, f"the condition `{norm(odd[-1], 60)}` under which `{norm(p.elt, 50)}` is reported missing was not understood"
                 worst = (True, False, f"`{norm(p.elt, 50)}` is reported missing without testing whether the layer has any realised pair")
+    if not reachable:
+        return True, False, "the conditions under which a missing dependency is reported can never hold: the requirement can never be violated"
     return worst
 
 
